@@ -450,16 +450,19 @@ func (c *Client) Get(
 		bm[blocks[i].Num()] = &blocks[i]
 	}
 
-	switch {
-	case filter.UseReceipts:
+	// the plan may ask for more than one of these (receipt fields next to
+	// trace fields): each requested kind is fetched
+	if filter.UseReceipts {
 		if err := c.receipts(ctx, url, bm, start, limit); err != nil {
 			return nil, fmt.Errorf("getting receipts: %w", err)
 		}
-	case filter.UseLogs:
+	}
+	if filter.UseLogs {
 		if err := c.logs(ctx, url, filter, bm, start, limit); err != nil {
 			return nil, fmt.Errorf("getting logs: %w", err)
 		}
-	case filter.UseTraces:
+	}
+	if filter.UseTraces {
 		if err := c.traces(ctx, url, bm, start, limit); err != nil {
 			return nil, fmt.Errorf("getting traces: %w", err)
 		}
